@@ -1016,5 +1016,5 @@ Proof. exact C16k_scatter_slices. Qed.
 Example C16_nonvacuous_fftfreq :
   map (fun k : nat => Qred (C16K.fftfreq_q 5 (1 # 2) k)) (seq 0 5) =
   [0%Q; (2 # 5)%Q; (4 # 5)%Q; (-4 # 5)%Q; (-2 # 5)%Q] /\
-  C16K.ramp_phases 2 3 (1 # 2) 3 = [[0%Q; (-1)%Q; 1%Q]; [(1 # 4)%Q; (-3 # 4)%Q; (5 # 4)%Q]].
+  map (map Qred) (C16K.ramp_phases 2 3 (1 # 2) 3) = [[0%Q; (-1)%Q; 1%Q]; [(1 # 4)%Q; (-3 # 4)%Q; (5 # 4)%Q]].
 Proof. exact C16k_fftfreq_example. Qed.
